@@ -257,6 +257,8 @@ pub fn run(ctx: &mut Ctx) {
         let stride = if ctx.thorough() || atoms.len() <= 40 { 1 } else { atoms.len() / 40 + 1 };
         for (ai, (o, l, k)) in atoms.iter().enumerate() {
             if ai % stride != (i + ctx.shard) % stride { continue; }
+            // thorough: the four shards working on a sample split its atoms between them
+            if ctx.thorough() && ai % 4 != (ctx.shard / 4) % 4 { continue; }
             let mut alts: Vec<(&str, Vec<u8>, Option<bool>)> = vec![]; // (what, replacement, must the decode fail?)
             match k {
                 'A' => {
@@ -368,9 +370,11 @@ pub fn run_c16(ctx: &mut Ctx) {
             }
         }
         // truncation at every atom boundary (and one byte into the atom), extension
-        let stride = if ctx.thorough() || atoms.len() <= 30 { 1 } else { atoms.len() / 30 + 1 };
+        // thorough: every boundary, except for the 4100-element vector (every ~14th)
+        let stride = if atoms.len() <= 30 || (ctx.thorough() && atoms.len() <= 600) { 1 } else { atoms.len() / (if ctx.thorough() { 300 } else { 30 }) + 1 };
         for (ai, (o, _, _)) in atoms.iter().enumerate() {
             if ai % stride != 0 { continue; }
+            if ctx.thorough() && ai % 4 != (ctx.shard / 4) % 4 { continue; }
             inputs.push(("truncated-at-atom".into(), bytes[..*o].to_vec()));
             if *o + 1 < bytes.len() { inputs.push(("truncated-inside-atom".into(), bytes[..*o + 1].to_vec())); }
         }
